@@ -162,6 +162,40 @@ def r1_dedup(ctx):
                           "accumulation guarded by a test depending on the current component and on what was accumulated so far")
 
 
+SUBSETTING = ("skip", "take", "step_by", "skip_while", "take_while", "index", "index_mut", "get", "split_at", "split_first", "split_last", "partition_point",
+              "rev", "chunks", "windows", "first", "last", "nth", "binary_search", "binary_search_by", "binary_search_by_key", "rchunks", "filter_map", "map_while")
+
+
+def r4_all_rules_considered(ctx):
+    """Every consumer of matching rules looks at *all* rules, in the collection's (priority) order, and selects by `matches*` only:
+    between the rule collection and the loop over a rule's components there is no slicing / skipping / reversing adapter. A rule that
+    is skipped on another criterion (priority vs. component count, position, ...) silently drops the components only it selects."""
+    F = ctx.F
+    fam = family(ctx)
+    n = 0
+    for root in sorted(fam):
+        body = F.fns[root]
+        for (h, blocks, nxt) in component_loops(body):
+            # the rule the components belong to comes from an outer loop (or iterator) over the rules
+            src = dep_closure(body, body.blocks[nxt].term["args"][0])
+            rule_iters = [d for (k, d) in src if k == "call" and callee_decl(body.blocks[d].term).endswith("Iterator::next") and d != nxt]
+            for ri in rule_iters:
+                deps = dep_closure(body, body.blocks[ri].term["args"][0])
+                names = {}
+                for (k, d) in deps:
+                    if k == "call":
+                        m = callee_decl(body.blocks[d].term).rsplit("::", 1)[-1]
+                        names.setdefault(m, d)
+                if "filter" not in names:
+                    continue  # not the rule iteration (e.g. the archetype's entities)
+                n += 1
+                sub = sorted(m for m in names if m in SUBSETTING)
+                ctx.check(not sub, ctx.nth("%s/all-rules-in-order" % short(root)), site_of(body, names[sub[0]]) if sub else site_of(body, ri),
+                          "the rules whose components are taken are narrowed or reordered by %s before `matches` is asked: a matching rule outside that subset contributes nothing "
+                          "(or a lower-priority rule wins the overlap)" % sub, "rules -> filter(matches) -> components")
+    ctx.check(n >= (2 if ctx.config in ("default", "all-features") else 1), "rule-iterations", "", "only %d rule iterations found in the consumers of matching rules" % n)
+
+
 def r2_entity_coverage(ctx):
     F = ctx.F
     body = ctx.fn("scene::replicate_into")
@@ -261,5 +295,6 @@ RULES = [
     ("C18.R1", "every consumer of overlapping replication rules de-duplicates components", r1_dedup, 2, None),
     ("C18.R2", "scene export covers every replicated entity once (entry per entity, existing entities merged, map written back)", r2_entity_coverage, 8, ["default", "all-features"]),
     ("C18.R3", "only rule-selected components of the entity itself are exported", r3_only_rule_components, 5, ["default", "all-features"]),
+    ("C18.R4", "every consumer considers all rules in priority order and selects by matches() only (no slicing/skipping/reversing of the rule collection)", r4_all_rules_considered, 2, None),
 ]
 THOROUGH_CONFIGS = ["default", "all-features", "server-only"]
